@@ -512,10 +512,19 @@ def Exch.postRecv (e : Exch) (ctr : Nat) (p : ProtoHdr) : Except Err Exch :=
 
 def MAX_EXCHANGES : Nat := Consts.maxExchanges
 
+/-- a group *data* message on a group session has already been judged by the per-sender group
+counter store (`store_checked` in `Session::post_recv`) -/
+def Session.storeChecked (s : Session) (h : PlainHdr) : Bool := s.isGroup && h.isGroup && !h.isControl
+
+/-- the per-session receive window — skipped for group data messages (the store is their
+authority; control messages keep the window) -/
+def Session.windowStep (s : Session) (h : PlainHdr) : Dedup.RxState × Bool :=
+  if s.storeChecked h then (s.rx, true) else Dedup.postRecvPlain s.rx h.ctr s.isEncrypted
+
 /-- `Session::post_recv`: counter window, then exchange lookup / creation.
 Returns the answer and the session as it is left behind (also on the error paths). -/
 def Session.postRecv (s : Session) (h : PacketHdr) : Except Err Bool × Session :=
-  let (rx', fresh) := Dedup.postRecvPlain s.rx h.plain.ctr s.isEncrypted
+  let (rx', fresh) := s.windowStep h.plain
   if !fresh then (.error .Duplicate, s) else
   let s := { s with rx := rx' }
   match s.exchs.findIdx? (fun e => e.id == h.proto.exchId && h.proto.isInitiator == e.responder) with
